@@ -29,7 +29,7 @@ Theorem C09_batch_has_designated_size :
                e <> ExValue) \/
     (exists i sc1 m, next_sampler LossV agent_actions (sch _ _ _ (live _ _ _ s)) = Some (i, sc1) /\
         nth_error (sched_samplers _ sc1) i = Some m /\
-        appended_batch _ _ _ model lossf draws (live _ _ _ s) (live _ _ _ s') m /\
+        appended_batch _ _ _ model lossf propose draws (live _ _ _ s) (live _ _ _ s') m /\
         (o = Done \/ o = Converged \/ o = Raised ExValue \/ o = Raised ExOther) /\
         (disk _ _ _ s' = disk _ _ _ s \/ disk _ _ _ s' = Some (live _ _ _ s'))).
 Proof. exact one_batch_cases. Qed.
